@@ -44,7 +44,7 @@ type VirtualObject struct {
 
 type APIReferenceCollector struct {
 	virtualObjects   map[string]map[string]VirtualObject
-	objectMethods    map[string][]MethodReference
+	objectMethods    map[ast.RefType][]MethodReference
 	builderMethods   map[builderReference][]MethodReference
 	packageFunctions map[string][]FunctionReference
 }
@@ -52,7 +52,7 @@ type APIReferenceCollector struct {
 func NewAPIReferenceCollector() *APIReferenceCollector {
 	return &APIReferenceCollector{
 		virtualObjects:   make(map[string]map[string]VirtualObject),
-		objectMethods:    make(map[string][]MethodReference),
+		objectMethods:    make(map[ast.RefType][]MethodReference),
 		builderMethods:   make(map[builderReference][]MethodReference),
 		packageFunctions: make(map[string][]FunctionReference),
 	}
@@ -87,7 +87,8 @@ func (collector *APIReferenceCollector) VirtualObjectMethod(object ast.Object, m
 }
 
 func (collector *APIReferenceCollector) ObjectMethod(object ast.Object, methodReference MethodReference) {
-	objectRef := object.SelfRef.String()
+	// package and name are kept apart: joined by a dot, `k8s` + `io.Pod` and `k8s.io` + `Pod` would be one object
+	objectRef := object.SelfRef
 	methodReference.ReceiverObject = &object
 	collector.objectMethods[objectRef] = append(collector.objectMethods[objectRef], methodReference)
 }
@@ -100,7 +101,7 @@ func (collector *APIReferenceCollector) methodsForObject(object ast.Object) []Me
 		return collector.virtualObjects[pkg][objectRef].Methods
 	}
 
-	return collector.objectMethods[objectRef]
+	return collector.objectMethods[object.SelfRef]
 }
 
 // builderReference identifies a builder: package and name are kept apart,
